@@ -94,6 +94,19 @@ def cases(rng, tier):
             pass
         fx = rng.choice([2.5, -2.5, 1e20, -7.99, 0.999, 123456789.5, -0.0])
         yield Case(program=render(bi('ㅈㅅ', VL.float_expr(fx))), tag='to-int', monitor='c11_expect', data=str(int(fx)))
+    # exact powers whose *exponent* is huge while the result is small (bases 0, 1, −1) or whose result is big but computable
+    # (|base| ≥ 2, up to ≈ 10^5 bits): the exact integer, never a refusal (seeded change S11l refused a power when
+    # bit_length(base) · exponent exceeded 2^32 — which for base ±1 is the exponent itself)
+    for ex in (2 ** 32 + 1, 2 ** 33, 2 ** 40 + rng.randint(0, 9), 2 ** 64, 2 ** 64 + 1, 2 ** 70 + 1, 10 ** 30 + rng.randint(0, 9)):
+        for base in (1, -1, 0):
+            want = base ** (ex % 2 + 2) if base else 0
+            yield Case(program=render(bi('ㅅ', lit(base), lit(ex))), tag='pow-huge-exponent', monitor='c11_expect', data=str(want), skip_model=True)
+            yield Case(program=render(bi('ㄷ', bi('ㅅ', lit(base), lit(ex)), lit(5))), tag='pow-huge-exponent', monitor='c11_expect', data=str(want + 5), skip_model=True)
+    for base, ex in ((2, 10 ** 5), (-2, 10 ** 5 + 1), (3, 40000), (-7, 20001), (10, 30000), (2 ** 64, 1500), (-(2 ** 100), 999)):
+        yield Case(program=render(bi('ㄴㅁ', bi('ㅅ', lit(base), lit(ex)), lit(10 ** 9 + 7))), tag='pow-big-result', monitor='c11_expect',
+                   data=str((base ** ex) - tdiv(base ** ex, 10 ** 9 + 7) * (10 ** 9 + 7)), skip_model=True, timeout=60)
+        yield Case(program=render(bi('ㄴ', bi('ㅅ', lit(base), lit(ex)), bi('ㄱ', bi('ㅅ', lit(base), lit(ex - 1)), lit(base)))), tag='pow-big-result',
+                   monitor='c11_expect', data='True', skip_model=True, timeout=60)
     # ㅈㅅ of a real whose integer part has more digits than its shortest decimal form shows (≥ 10^16): the result is the exact
     # integer value of the double, truncated toward zero — never its printed digits (seeded change S11k truncated
     # Decimal(str(x))); and ㅈㅅ(ㅅㅅ n) = n for exactly representable n of any size
